@@ -717,6 +717,27 @@ fn decode_stream(r: &Rng, out: &mut Out, n: usize, with_leaf: bool) {
             }
         }
     }
+    // every kind through the public path, correctly framed, with every payload length around its format's
+    // minimum and around each optional field: one octet short, exact, one octet over
+    for k in ALL_KINDS.iter() {
+        let attr = crate::ops::attr_of_kind(k).unwrap();
+        for l in 0..=min_len(attr) + 6 {
+            for variant in 0..3 {
+                let p: Vec<u8> = match variant {
+                    0 => (0..l).map(|i| (i as u8) & 1).collect(),
+                    1 => vec![0u8; l],
+                    _ => r.bytes(l),
+                };
+                let total = 6 + l;
+                let mut rec = vec![((total >> 8) as u8) << 6 | (variant as u8 & 1), total as u8, 0, 0];
+                rec.extend_from_slice(&attr.to_be_bytes());
+                rec.extend_from_slice(&p);
+                out.push(format!("avps {}", hex(&rec)));
+                let img = assemble(0x1320, 1, 2, 3, 4, &[mt_record(r), rec]);
+                out.push(format!("dec {} {}", if variant == 0 { "111" } else { "000" }, hex(&img)));
+            }
+        }
+    }
     for i in 0..n {
         let b = match i % 10 {
             0 | 1 | 2 => valid_image(r, i % 40 == 0),
@@ -886,7 +907,12 @@ fn enc_stream(r: &Rng, out: &mut Out, n: usize, prefixes: bool, oversize: bool) 
         out.push(format!("enca . Hidden(7,{})", hex(&r.bytes(1100))));
         out.push(format!("enca . Challenge({})", hex(&r.bytes(4096))));
         // control messages with total sizes 65520..65550
-        for total in (65520usize..=65550).step_by(if n > 20000 { 1 } else { 3 }) {
+        let mut totals: Vec<usize> = (65520usize..=65550).step_by(if n > 20000 { 1 } else { 3 }).collect();
+        // the boundary itself, octet by octet, in every tier
+        totals.extend(65531usize..=65540);
+        totals.sort();
+        totals.dedup();
+        for total in totals {
             let mut avps = vec![TAvp::new("MessageType", vec!["Hello".into()])];
             let mut size = 12 + 8;
             while size + 1023 + 7 <= total {
@@ -1022,6 +1048,31 @@ fn c08_stream(r: &Rng, out: &mut Out, n: usize) {
                 out.push(format!("cat {}", recs.join("|")));
             }
         }
+    }
+    // what follows the declared end may be long: suffix lengths that put the octets remaining after the
+    // header across the 8-, 16- and 17-bit boundaries (a length comparison done in too narrow a type)
+    for j in 0..(if n > 100000 { 12 } else { 4 }) {
+        let b = if j % 2 == 0 { valid_image(r, false) } else { data_image_noncanonical(r) };
+        for base in [256usize, 65536, 131072] {
+            let lo = base.saturating_sub(b.len() + 2);
+            for s in (lo..=base + 2).step_by(if n > 100000 { 1 } else { 5 }) {
+                out.push(format!("sfx {} {} {}", opts(r), hex(&b), hex(&r.bytes(s))));
+            }
+        }
+    }
+    // and a packed sequence longer than 64 KiB
+    {
+        let mut ms = vec![];
+        for i in 0..90 {
+            let (cl, hl) = (700 + (i * 3) % 300, 1 + i % 50);
+            let avps = vec![
+                TAvp::new("MessageType", vec!["Hello".into()]),
+                TAvp::new("Challenge", vec![hex(&vec![i as u8; cl])]),
+                TAvp::new("HostName", vec![hex(&vec![0x61; hl])]),
+            ];
+            ms.push(TMsg::Control { len: (12 + 8 + 6 + cl + 6 + hl) as u16, tid: i as u16, sid: 2, ns: 3, nr: 4, avps }.render());
+        }
+        out.push(format!("seqm {}", ms.join("|")));
     }
 }
 
@@ -1217,11 +1268,11 @@ fn c18_stream(r: &Rng, out: &mut Out, n: usize) {
                     rem -= n;
                 }
                 6 => {
-                    // bytes, possibly too long (then the sequence ends)
+                    // bytes, possibly too long: refused, and the sequence goes on from the same position
                     let n = if r.chance(1, 4) { rem + 1 + r.below(3) } else { pick_n(r, rem) };
                     ops.push(format!("b{}", n));
                     if n > rem {
-                        break;
+                        continue;
                     }
                     rem -= n;
                 }
@@ -1237,6 +1288,8 @@ fn c18_stream(r: &Rng, out: &mut Out, n: usize) {
     out.push("rd . b0".to_string());
     out.push("rd . b1".to_string());
     out.push("rd 00 b2".to_string());
+    out.push("rd 0a0b0c0d0e b6,u8,b5,b2,u16".to_string());
+    out.push("rd 0a0b0c0d b9,s2,b3,k1,b2,b1".to_string());
     out.push("rd 0001 b18446744073709551615".to_string());
     for _ in 0..n {
         let k = 1 + r.below(16);
